@@ -2,7 +2,7 @@
 C16: a dynamic-Huffman block of the spec decoder depends only on its own bits (`blockAt_dynamic`).
 -/
 import WuffsVerif.Proof.Flate.DynSpec
-import WuffsVerif.Proof.Flate.Assembly
+import WuffsVerif.Proof.Flate.Sim
 
 namespace WuffsVerif.Flate.Cut
 open WuffsVerif.Gen.C16 WuffsVerif.Flate.Spec
